@@ -67,11 +67,11 @@ def handle : List String → String
   | ["survive", k, c, u, s, p, i, pl, up] =>
     let o := runEnd ⟨b k, b c, b u, b s⟩ ⟨b p, b i, b pl, b up⟩
     "exit=" ++ sb o.exitNonZero ++ " foul=" ++ sb o.foulFlag ++ " run=" ++ sb o.runDir ++ " art=" ++ sb o.artifacts
-      ++ " plots=" ++ sb o.plots ++ " result=" ++ sb o.result ++ " uploaded=" ++ sb o.uploaded
+      ++ " plots=" ++ sb o.plots ++ " result=" ++ sb o.result ++ " uploaded=" ++ sb o.uploaded ++ " upart=" ++ sb o.uploadedArtifacts
   -- oracle: the survive specification on what the real program left on disk
-  | ["oracle-survive", k, c, u, s, failed, art, run] =>
-    if surviveSpec ⟨b k, b c, b u, b s⟩ (b failed) (b art) (b run) then "ok"
-    else "FAIL artifacts kept iff (failed or -k) and run directory kept; run directory erased iff (--clear or upload) and not failed"
+  | ["oracle-survive", k, c, u, s, fouled, failed, art, run] =>
+    if surviveSpec ⟨b k, b c, b u, b s⟩ (b fouled) (b failed) (b art) (b run) then "ok"
+    else "FAIL artifacts kept iff (the play failed or -k) and run directory kept; run directory erased iff (--clear or upload) and exit status 0"
   | ["range", ts] =>
     match ints ts with
     | some l => toString (normalise 10000 (record l)).1 ++ " " ++ toString (normalise 10000 (record l)).2
